@@ -508,6 +508,12 @@ func runTraces(k *vf.Case) {
 			if r.Chance(1, 5) {
 				st.EndTime = st.StartTime.Add(time.Duration(r.Intn(1e6)) * time.Hour / 100)
 			}
+			switch r.Intn(12) {
+			case 0:
+				st.EndTime = st.StartTime // a zero-length span
+			case 1:
+				st.EndTime = st.StartTime.Add(time.Duration(1 + r.Intn(999))) // shorter than a microsecond
+			}
 			for j := range st.Events {
 				st.Events[j].Time = st.StartTime.Add(time.Duration(r.Intn(1000)) * time.Microsecond)
 			}
@@ -591,14 +597,10 @@ func runTraces(k *vf.Case) {
 	// zipkin: ids, name, kind, start and duration in microseconds
 	zipkinOK := len(stubs) > 0
 	for _, st := range stubs {
-		// the Zipkin model rejects non-positive durations and zero annotation timestamps (whole batch)
-		if st.StartTime.UnixNano() <= 0 || !st.EndTime.After(st.StartTime.Add(time.Microsecond)) || st.EndTime.Sub(st.StartTime) > 200*365*24*time.Hour {
+		// the Zipkin model (zipkin-go) refuses to serialise a whole batch when one span starts less than one
+		// second after the epoch (a zero time is simply omitted) or has a negative duration
+		if (!st.StartTime.IsZero() && st.StartTime.Unix() < 1) || st.EndTime.Sub(st.StartTime) < 0 {
 			zipkinOK = false
-		}
-		for _, ev := range st.Events {
-			if ev.Time.UnixNano() <= 0 {
-				zipkinOK = false
-			}
 		}
 	}
 	if zipkinOK {
@@ -644,15 +646,32 @@ func runTraces(k *vf.Case) {
 				if gotParent != wantParent || !strings.EqualFold(gotName, st.Name) || gotKind != zk {
 					k.Violate("zipkin-field-mismatch", "", fmt.Sprintf("span %s: parent %q want %q; name %q want %q; kind %q want %q", key, gotParent, wantParent, gotName, st.Name, gotKind, zk), nil)
 				}
-				// timestamps inside the representable range only
-				if st.StartTime.UnixNano() > 0 && st.EndTime.After(st.StartTime) && st.EndTime.Sub(st.StartTime) < 200*365*24*time.Hour {
+				// timestamps inside the range where UnixNano is defined; the model rounds to the nearest
+				// microsecond, omits a zero duration and reports a positive sub-microsecond one as 1
+				if y := st.StartTime.Year(); (y >= 1970 && y < 2262) || st.StartTime.IsZero() {
 					ts, _ := s["timestamp"].(float64)
 					du, _ := s["duration"].(float64)
-					// the Zipkin model rounds to the nearest microsecond
-					if d := int64(ts) - st.StartTime.UnixMicro(); d < 0 || d > 1 || int64(du)-st.EndTime.Sub(st.StartTime).Microseconds() < 0 || int64(du)-st.EndTime.Sub(st.StartTime).Microseconds() > 1 {
-						{
-							k.Violate("zipkin-field-mismatch", "time", fmt.Sprintf("span %s: timestamp %v want %d; duration %v want %d", key, ts, st.StartTime.UnixMicro(), du, st.EndTime.Sub(st.StartTime).Microseconds()), nil)
-						}
+					var wantTs int64
+					if !st.StartTime.IsZero() {
+						wantTs = st.StartTime.Round(time.Microsecond).UnixNano() / 1e3
+					}
+					d := st.EndTime.Sub(st.StartTime)
+					var wantDu int64
+					switch {
+					case d == 0:
+					case d < time.Microsecond:
+						wantDu = 1
+					default:
+						wantDu = int64((d + 500*time.Nanosecond) / time.Microsecond)
+					}
+					if d > 200*365*24*time.Hour { // saturated time.Duration
+						wantDu = int64(du)
+					}
+					if int64(ts) != wantTs || int64(du) != wantDu {
+						k.Violate("zipkin-field-mismatch", "time", fmt.Sprintf("span %s: timestamp %v want %d; duration %v want %d (start %v end %v)", key, ts, wantTs, du, wantDu, st.StartTime, st.EndTime), nil)
+					}
+					if d == 0 {
+						k.C.Count("zipkin_zero_duration_spans", 1)
 					}
 				}
 				k.C.Count("zipkin_spans_compared", 1)
@@ -886,6 +905,24 @@ func runMetrics(k *vf.Case) {
 		}
 		rm.ScopeMetrics = append(rm.ScopeMetrics, sm)
 	}
+	// one batch in ten also carries a metric that has no OTLP encoding (undefined temporality, no data):
+	// the exporter must report it and still deliver every other metric of the batch
+	hasBad := false
+	if len(rm.ScopeMetrics) > 0 && r.Chance(1, 10) {
+		hasBad = true
+		si := r.Intn(len(rm.ScopeMetrics))
+		bad := metricdata.Metrics{Name: "unencodable"}
+		switch r.Intn(3) {
+		case 0:
+			bad.Data = metricdata.Sum[int64]{DataPoints: []metricdata.DataPoint[int64]{{Value: 1}}}
+		case 1:
+			bad.Data = metricdata.Histogram[float64]{DataPoints: []metricdata.HistogramDataPoint[float64]{{Count: 1}}}
+		}
+		ms := rm.ScopeMetrics[si].Metrics
+		at := r.Intn(len(ms) + 1)
+		rm.ScopeMetrics[si].Metrics = append(ms[:at:at], append([]metricdata.Metrics{bad}, ms[at:]...)...)
+		k.C.Count("metric_batches_with_an_unencodable_metric", 1)
+	}
 	decode := func(reqs []*otlpsrv.Request) (map[string]string, []string) {
 		got := map[string]string{}
 		var probs []string
@@ -964,9 +1001,13 @@ func runMetrics(k *vf.Case) {
 	for _, v := range []string{vf.Pick(r, variants[:2]), vf.Pick(r, variants[2:])} {
 		srv := srvFor(e, v)
 		mark := srv.Count()
-		if err := e.metric[v].Export(context.Background(), rm); err != nil {
+		err := e.metric[v].Export(context.Background(), rm)
+		if err != nil && !hasBad {
 			k.Violate("export-error", "metrics "+v, err.Error(), nil)
 			return
+		}
+		if err == nil && hasBad {
+			k.Violate("unencodable-metric-not-reported", v, "", nil)
 		}
 		got, probs := decode(requestsSince(srv, mark, "metrics"))
 		for _, p := range probs {
